@@ -244,6 +244,9 @@ def compare(role: str, edge: t.Dict[str, t.Any], obs: t.Dict[str, t.Any]) -> t.L
                 prop = "C10"
             diffs.append((prop, f"send-acceptance/{role}/{src['st']}/{call.get('k', op)}/{exp_res}->{got_res}", f"{where}: expected {exp_res}, got {got_res} {obs['exc']}"))
     exp_emit = call["emit"]
+    if got_res != "ok" and op != "recv" and obs["raw_emit"]:
+        for prop_ in ("C12", "C10"):
+            diffs.append((prop_, f"failed-call-queued-octets/{role}/{src['st']}/{call.get('k', op)}", f"{where}: the call raised {got_res} but {len(obs['raw_emit'])} octets were queued"))
     if obs["emit"] != exp_emit:
         if closed:
             prop = "C08"
